@@ -103,6 +103,12 @@ def run_case(ck, case, reqs, pending):
     kw = {"adimensional_velocity": case["adimensional"], "velocity_normalization": case["vnorm"]}
     if case["b_matrix"]:
         kw["b_matrix"] = case["b_matrix"]
+    if case["adimensional"] and case["b_matrix"] == "velocity" and fm.map_vid_to_row and \
+            all(float(np.hypot(*f.mesh.calculate_velocity(v, t))) == 0.0 for v in fm.map_vid_to_row):
+        # every used junction is at rest: the mean speed is zero and the adimensional right-hand side is 0/0 — outside the property
+        ck.count("rejected_zero_mean_speed")
+        ck.case(case, nontrivial=False)
+        return f, frames, s
     b, avg = fm.set_velocity_matrix(f.mesh, **kw)
     b = np.array(b, dtype=float).flatten()
     rowmap = {int(k): int(v) for k, v in fm.map_vid_to_row.items()}
@@ -127,6 +133,17 @@ def run_case(ck, case, reqs, pending):
         reqs.append({"op": "place_velocities", "nrows": nrows, "rows": [[r, [rat(vel[v][0]), rat(vel[v][1])]] for v, r in rowmap.items()]})
         pending.append(("place", case, [float(x) for x in np.array(fm.velocity_matrix_dimensional).flatten()], raw))
     # system velocity per frame
+    zero_frames = []
+    for tt in range(n):
+        impl.quiet(f.build_force_matrix, when=tt, angle_limit=np.inf)
+        rm = f.force_matrices[tt].map_vid_to_row
+        if rm and all(float(np.hypot(*f.mesh.calculate_velocity(v, tt))) == 0.0 for v in rm):
+            zero_frames.append(tt)
+    if zero_frames:
+        # a frame whose used junctions are all at rest has mean speed zero: its adimensional velocity is 0/0 (outside the property)
+        ck.count("rejected_system_velocity_zero_mean_speed")
+        ck.case(case, nontrivial=True)
+        return f, frames, s
     sysv = impl.quiet(f.get_system_velocity_per_frame)
     for tt in range(n):
         rm = f.force_matrices[tt].map_vid_to_row
